@@ -1,5 +1,6 @@
 import OH.Proofs.EvalSpecDatedYear
 import OH.Proofs.EvalSpecDatedWide
+import OH.Proofs.DatedFar
 /-
 C01 refinement, dated ranges: the decidable class under which the model's filter is the specification's
 `datedOk` on every day of 1899-12-31 … 9999-12-31.
@@ -71,10 +72,13 @@ def offsWideD (s : DateSpec) (so : DateOffset) (e : DateSpec) (eo : DateOffset) 
    offset only);
  * otherwise (a start with a year and a yearless end; Easter): both day offsets within ±30 000 000 days, ±300 000
    days when a bound is Easter (`offsSmallD`).
+ * or: a yearless start moved by +99 500 000 days or more (`offFarStartD`, OH/Proofs/DatedFar.lean: beyond
+   representability — nothing ever starts before 10000-01-01), any dates, any end offset.
 Nothing else: any weekday shift, single days, ranges longer than a year, offsets that differ by thousands of
 years. -/
 def datedPlain (s : DateSpec) (so : DateOffset) (e : DateSpec) (eo : DateOffset) : Bool :=
-  (((specYear s).isSome && (specYear e).isSome) || offsSmallD s so e eo || offsWideD s so e eo) && datedDefined s e
+  (((specYear s).isSome && (specYear e).isSome) || offsSmallD s so e eo || offsWideD s so e eo
+    || ((specYear s).isNone && offFarStartD so)) && datedDefined s e
 
 /-- The class of (dated range, day) pairs the refinement covers: it no longer depends on the day (the
 parameter is kept for the statements that quantify over days). -/
@@ -112,17 +116,22 @@ theorem dated_eq_of_plain (s : DateSpec) (so : DateOffset) (e : DateSpec) (eo : 
     MonthdayRange.filter (.date s so e eo) d = .ok (datedOk s so e eo d) := by
   by_cases hwide : offsWideD s so e eo = true
   · exact dated_eq_of_wide s so e eo d hwf hwide h1 h2
+  by_cases hfar : ((specYear s).isNone && offFarStartD so) = true
+  · simp only [Bool.and_eq_true, Option.isNone_iff_eq_none, offFarStartD, decide_eq_true_eq] at hfar
+    exact dated_far_eq s so e eo d hwf hfar.1 hfar.2 h2
   simp only [MonthdayRange.wf, DateOffset.wf, Bool.and_eq_true] at hwf
   obtain ⟨⟨⟨ws, ⟨wso, _⟩⟩, we⟩, ⟨weo, _⟩⟩ := hwf
   unfold datedPlain at hsafe
-  simp only [Bool.and_eq_true, Bool.or_eq_true, hwide] at hsafe
+  rw [Bool.not_eq_true] at hfar
+  simp only [Bool.and_eq_true, Bool.or_eq_true, hwide, hfar] at hsafe
   obtain ⟨hoff, hdef⟩ := hsafe
   cases hsy : specYear s with
   | none =>
     have hoff : offsSmallD s so e eo = true := by
-      rcases hoff with (h | h) | h
+      rcases hoff with ((h | h) | h) | h
       · simp [hsy] at h
       · exact h
+      · exact absurd h (by simp)
       · exact absurd h (by simp)
     obtain ⟨hss, hes, L, hL1, hLs, hLe, hL⟩ := offsSmallD_spec s so e eo hoff
     have hs : BoundOK L s so := ⟨ws, wso, hss, hL1, hLs⟩
@@ -144,9 +153,10 @@ theorem dated_eq_of_plain (s : DateSpec) (so : DateOffset) (e : DateSpec) (eo : 
     cases hey : specYear e with
     | none =>
       have hoff : offsSmallD s so e eo = true := by
-        rcases hoff with (h | h) | h
+        rcases hoff with ((h | h) | h) | h
         · simp [hey] at h
         · exact h
+        · exact absurd h (by simp)
         · exact absurd h (by simp)
       obtain ⟨hss, hes, L, hL1, hLs, hLe, hL⟩ := offsSmallD_spec s so e eo hoff
       exact dated_year_yearless_eq s so e eo d ⟨ws, wso, hss, hL1, hLs⟩ ⟨we, weo, hes, hL1, hLe⟩ hL sy hsy hey h1 h2
